@@ -432,6 +432,8 @@ impl LogReader {
 
         // A buffer consolidating all of the fragments retrieved from the log file.
         let mut data_buffer: Vec<u8> = vec![];
+        // True while `data_buffer` holds the leading fragments of a record that is not complete yet
+        let mut in_fragmented_record = false;
 
         loop {
             let maybe_record = self.read_physical_record();
@@ -442,18 +444,60 @@ impl LogReader {
                         _ => return Err(physical_read_err),
                     }
                 }
+
+                // The fragment was damaged. Whatever was collected so far cannot be completed
+                // anymore, so it is dropped together with the damaged fragment.
+                if in_fragmented_record {
+                    LogReader::log_corruption(data_buffer.len() as u64);
+                }
+                data_buffer.clear();
+                in_fragmented_record = false;
             } else {
                 let record = maybe_record.unwrap();
-                data_buffer.extend(record.data);
 
                 match record.block_type {
                     BlockType::Full => {
-                        return Ok((data_buffer, false));
+                        if in_fragmented_record {
+                            // The writer died before finishing the previous record
+                            LogReader::log_drop(
+                                data_buffer.len() as u64,
+                                "Partial record without an end.".to_owned(),
+                            );
+                        }
+
+                        return Ok((record.data, false));
                     }
-                    BlockType::First => {}
-                    BlockType::Middle => {}
+                    BlockType::First => {
+                        if in_fragmented_record {
+                            LogReader::log_drop(
+                                data_buffer.len() as u64,
+                                "Partial record without an end.".to_owned(),
+                            );
+                        }
+
+                        data_buffer = record.data;
+                        in_fragmented_record = true;
+                    }
+                    BlockType::Middle => {
+                        if in_fragmented_record {
+                            data_buffer.extend(record.data);
+                        } else {
+                            LogReader::log_drop(
+                                record.data.len() as u64,
+                                "Missing the start of a fragmented record.".to_owned(),
+                            );
+                        }
+                    }
                     BlockType::Last => {
-                        return Ok((data_buffer, false));
+                        if in_fragmented_record {
+                            data_buffer.extend(record.data);
+                            return Ok((data_buffer, false));
+                        }
+
+                        LogReader::log_drop(
+                            record.data.len() as u64,
+                            "Missing the start of a fragmented record.".to_owned(),
+                        );
                     }
                 }
             }
